@@ -344,6 +344,13 @@ Definition set_partial (st : estate) (p : list frame) : estate :=
 Definition closed (st : estate) : estate := set_phase st PClosed.
 Definition fail0 (st : estate) (e : errclass) : res estate eout := Step (closed st) 0 [OErr e].
 
+(* process_ready: `peer_socket_type.as_deref().and_then(socket_type_code)` then validate_v2_compatibility *)
+Definition ready_incompatible (cfg : ecfg) (ps : list (bytes * bytes)) : bool :=
+  match prop_get s_SocketType ps with
+  | Some t => match stype_code t with Some c => negb (v2_compat (c_stype cfg) c) | None => false end
+  | None => false
+  end.
+
 Definition MAX_FRAMES : nat := 255.  (* VecU8 capacity of FrameBatch::Many *)
 
 (* one micro-step of the handler for the current phase *)
@@ -424,6 +431,8 @@ Definition estep (cfg : ecfg) (st : estate) (buf : bytes) : res estate eout :=
       | DFrame f n =>
           match parse_cmd f with
           | CReady ps =>
+              (* one compatibility verdict: a known Socket-Type that does not pair with ours is refused *)
+              if ready_incompatible cfg ps then Step (closed st) n [OErr EProto] else
               Step (set_phase st PData) n
                    ((if c_server cfg then [ready_send cfg] else []) ++ [OActivity] ++ cork_out cfg ++
                     [OHandshake (prop_get s_Identity ps) (prop_get s_SocketType ps)])
